@@ -2,12 +2,25 @@
 
 LAYER_DEFAULTS = {
     'tracer': {'quick': {'n': 60, 'size': 40, 'shards': 2}, 'thorough': {'n': 400, 'size': 120, 'shards': 16}},
+    'journal': {'quick': {'n': 60, 'size': 20, 'shards': 2}, 'thorough': {'n': 400, 'size': 100, 'shards': 16}},
 }
 
 TB_M1 = ['vm/tracer.go is modelled by hand (Artela/Model/CallTree.lean, StateChanges.lean); Go maps as insertion-ordered '
          'association lists, pointers as arena ids; tied by the op-sequence correspondence through the exported Tracer API']
 
+TB_M2 = ['vm/instructions.go journal opcodes 0xe0-0xe7 and loadDataFromMem are modelled by hand (Artela/Model/Journal.lean); '
+         'tied by executing real bytecode on the real interpreter (every fork, static and non-static) and comparing every '
+         'instruction outcome and every tracer query with the model',
+         'keccak-256 is an uninterpreted function; the harness supplies digest/preimage pairs and the model fixes the preimage shape',
+         'holiman/uint256 and Go slice semantics as modelled in Model/Base.lean and Model/Journal.lean (goSlice, memGetCopy)']
+
 PROPS = {
+    'C09': {
+        'modules': ['Artela.Props.C09'],
+        'runs': [{'layer': 'journal'}],
+        'trusted_base': TB_M1 + TB_M2 + ['Solidity storage layout as written in Artela/Spec/Solidity.lean (solPacked, solString) and, independently, in the Go harness (putString)'],
+        'assumptions': ['storage words are < 2^256 (common.Hash)', 'Go append returns capacity >= length'],
+    },
     'C16': {
         'modules': ['Artela.Props.C16'],
         'runs': [{'layer': 'tracer'}],
